@@ -970,6 +970,8 @@ pub fn run_check(ctx: &Ctx) -> Report {
             }
         }
     });
-    repl_driver(&mut rep, &ctx2);
+    if std::env::var("NLV_NO_CLI").is_err() {
+        repl_driver(&mut rep, &ctx2);
+    }
     rep
 }
